@@ -58,10 +58,10 @@ def quick_scenarios(rng):
         scn("h1", "h1", 1, "none", 0, "cl", 8000000, step=0, cpause=1000, sockbuf=65536, seed=s()),
         scn("h1", "h1", 1, "cl", 8000000, "cl", 100, step=0, bpause=1000, sockbuf=65536, seed=s()),
         # HTTP/1.1 -> h2c
-        scn("h1", "h2", 3, "cl", w(), "datacl", w(), pad=rng.choice([0, 5]), win=rng.choice([65535, 1000]), cfrag=rng.choice([0, 13]), seed=s()),
+        scn("h1", "h2", 3, "cl", w(), "datacl", w(), pad=rng.choice([5, 255]), win=rng.choice([65535, 1000]), cfrag=rng.choice([0, 13]), seed=s()),
         scn("h1", "h2", 2, "chunked", b(), "data", b(), chunk=rng.choice([100, 1000, 16384]), bfrag=rng.choice([0, 100]), seed=s()),
         # HTTP/2 over TLS -> HTTP/1.1
-        scn("h2", "h1", 4, "data", b(), "cl", b(), step=9, pad=rng.choice([0, 255]), cfrag=rng.choice([0, 100]), seed=s()),
+        scn("h2", "h1", 4, "data", b(), "cl", b(), step=9, pad=255, cfrag=rng.choice([0, 100]), seed=s()),
         scn("h2", "h1", 3, "data", w(), "chunked", w(), chunk=rng.choice([1000, 16375]), win=rng.choice([65535, 20000]), seed=s()),
         scn("h2", "h1", 2, "none", 0, "close", rng.choice([b(), 70000]), seed=s()),
         # HTTP/2 over TLS -> h2c: concurrent streams, padding, small windows, pauses
@@ -80,6 +80,10 @@ def quick_scenarios(rng):
         scn(rng.choice(["h1", "h2"]), "h2", 2, "TR", 20000, "datatr", 30000, chunk=1000, seed=s()),
         # HTTP/1.1 pipelining: the whole sequence in one write, bodies included
         scn("h1", rng.choice(["h1", "h2"]), 3, rng.choice(["cl", "chunked"]), 5000, "cl" , 7000, chunk=1000, stagger=2, seed=s()),
+        # 16 streams with a huge window: sozu offers its TLS layer more plaintext per write than rustls buffers (64 KiB)
+        scn("h2", rng.choice(["h1", "h2"]), 16, "none", 0, "cl", 500000, step=0, win=1 << 30, seed=s()),
+        # Expect: 100-continue: the body is held back until the interim response arrives
+        scn("h1", "h1", 2, "clexp", 20000, "cl", 3000, seed=s()),
         # unclean ends stay unclean
         scn("h1", "h1", 1, "cl", 50000, rng.choice(["cl", "chunked"]), 50000, chunk=1000, abort=1, seed=s()),
         scn("h2", "h2", 1, "data", 50000, "data", 50000, chunk=1000, abort=1, seed=s()),
